@@ -316,6 +316,15 @@ func runC03(c *h.Ctx) {
 	for n := 0; n <= 34; n++ { // inner request with padded origin of n bytes; all-zero and empty origins
 		extra["type3.InnerTokenRequest.Unmarshal"] = append(extra["type3.InnerTokenRequest.Unmarshal"], cat([]byte{7}, rnd(c, 256), u16pfx(make([]byte, n))))
 	}
+	// DER-consuming targets: every element of the seed's TLV tree emptied / shortened / extended with ALL enclosing
+	// lengths re-encoded consistently (structurally valid DER with degenerate leaves)
+	for _, t := range targets {
+		if t.name == "util.UnmarshalTokenKey" || t.name == "ecdsa.VerifyASN1" {
+			for _, s := range t.seeds {
+				extra[t.name] = append(extra[t.name], derVariants(s)...)
+			}
+		}
+	}
 	for _, t := range targets {
 		for _, s := range t.seeds {
 			mutate(c, t, s)
@@ -386,4 +395,125 @@ func (w wrap2) Evaluate(req tokens.TokenRequest) ([]byte, error) {
 		return nil, fmt.Errorf("wrong request type")
 	}
 	return w.BasicPublicIssuer.Evaluate(r)
+}
+
+// ---- structure-aware DER mutation ---------------------------------------------------------------------------------------
+
+type derNode struct {
+	tag      byte
+	content  []byte     // for leaves
+	children []*derNode // for constructed elements (and BIT STRINGs that wrap DER: first content byte kept in pre)
+	pre      []byte
+}
+
+func derParse(b []byte, depth int) ([]*derNode, bool) {
+	var out []*derNode
+	for len(b) > 0 {
+		if len(b) < 2 {
+			return nil, false
+		}
+		tag, l, hdr := b[0], int(b[1]), 2
+		if l&0x80 != 0 {
+			n := l & 0x7f
+			if n == 0 || n > 3 || len(b) < 2+n {
+				return nil, false
+			}
+			l = 0
+			for i := 0; i < n; i++ {
+				l = l<<8 | int(b[2+i])
+			}
+			hdr = 2 + n
+		}
+		if len(b) < hdr+l {
+			return nil, false
+		}
+		body := b[hdr : hdr+l]
+		nd := &derNode{tag: tag, content: body}
+		if depth < 6 {
+			if tag&0x20 != 0 {
+				if ch, ok := derParse(body, depth+1); ok {
+					nd.children, nd.content = ch, nil
+				}
+			} else if tag == 3 && len(body) > 1 {
+				if ch, ok := derParse(body[1:], depth+1); ok && len(ch) > 0 {
+					nd.children, nd.content, nd.pre = ch, nil, body[:1]
+				}
+			}
+		}
+		out = append(out, nd)
+		b = b[hdr+l:]
+	}
+	return out, true
+}
+
+func derEncode(ns []*derNode) []byte {
+	var out []byte
+	for _, n := range ns {
+		body := n.content
+		if n.children != nil {
+			body = cat(n.pre, derEncode(n.children))
+		}
+		out = append(out, derTLV(n.tag, body)...)
+	}
+	return out
+}
+
+// derVariants: for every node of the tree, variants with that node replaced (empty, one byte, last byte dropped,
+// one byte added, removed altogether, duplicated), all ancestors re-encoded.
+func derVariants(seed []byte) [][]byte {
+	root, ok := derParse(seed, 0)
+	if !ok {
+		return nil
+	}
+	var out [][]byte
+	var walk func(ns []*derNode)
+	walk = func(ns []*derNode) {
+		for i, n := range ns {
+			saveC, saveCh, savePre := n.content, n.children, n.pre
+			full := n.content
+			if n.children != nil {
+				full = cat(n.pre, derEncode(n.children))
+			}
+			for _, repl := range [][]byte{nil, {0}, {0x80}, {0xff}, full[:len(full)/2], func() []byte {
+				if len(full) > 0 {
+					return full[:len(full)-1]
+				}
+				return nil
+			}(), cat(full, []byte{0}), cat([]byte{0}, full)} {
+				n.content, n.children, n.pre = append([]byte{}, repl...), nil, nil
+				out = append(out, derEncode(root))
+			}
+			n.content, n.children, n.pre = saveC, saveCh, savePre
+			// remove / duplicate the node among its siblings
+			removed := append(append([]*derNode{}, ns[:i]...), ns[i+1:]...)
+			dup := append(append(append([]*derNode{}, ns[:i+1]...), n), ns[i+1:]...)
+			for _, alt := range [][]*derNode{removed, dup} {
+				copyNs := append([]*derNode{}, ns...)
+				// splice alt in place of ns at the parent: rebuild by temporarily swapping slices through a closure
+				out = append(out, derEncodeWith(root, ns, alt))
+				_ = copyNs
+			}
+			if n.children != nil {
+				walk(n.children)
+			}
+		}
+	}
+	walk(root)
+	return out
+}
+
+// derEncodeWith encodes the tree with the sibling list `from` replaced by `to` wherever it occurs.
+func derEncodeWith(ns []*derNode, from, to []*derNode) []byte {
+	if len(ns) == len(from) && (len(ns) == 0 || &ns[0] == &from[0]) {
+		ns = to
+	}
+	var out []byte
+	for _, n := range ns {
+		body := n.content
+		if n.children != nil {
+			body = cat(n.pre, derEncodeWith(n.children, from, to))
+		}
+		out = append(out, derTLV(n.tag, body)...)
+	}
+	return out
 }
